@@ -10,12 +10,15 @@ import (
 	"context"
 	"encoding/json"
 	"fmt"
+	"io"
+	"net/http"
 	"reflect"
 	"sort"
 	"strings"
 	"time"
 
 	"ebuverif/internal/h"
+	"ebuverif/internal/stores"
 	"ebuverif/vrt"
 
 	eventbus "github.com/jilio/ebu"
@@ -445,6 +448,90 @@ func values() []valCase {
 	return l
 }
 
+// ---------------------------------------------------------------- sequences on one bus
+
+// Versioned: the event name depends on the value.
+type Versioned struct {
+	V int
+	N int
+}
+
+func (v Versioned) EventTypeName() string { return fmt.Sprintf("order.placed.v%d", v.V) }
+
+// sequenceCases: several publishes on ONE bus (the value cases above use a fresh bus each).
+func sequenceCases() (out []string) {
+	ms := eventbus.NewMemoryStore()
+	bus := eventbus.New(eventbus.WithStore(ms))
+	var want []string
+	for _, ev := range []Versioned{{1, 1}, {2, 2}, {2, 3}, {1, 4}} {
+		eventbus.Publish(bus, ev)
+		want = append(want, eventbus.EventType(ev))
+	}
+	eventbus.Publish(bus, EvB{1})
+	eventbus.Publish(bus, &EvB{2})
+	want = append(want, "ev.b.v1", "ev.b.v1")
+	evs, _, _ := ms.Read(context.Background(), eventbus.OffsetOldest, 0)
+	var got []string
+	for _, e := range evs {
+		got = append(got, e.Type)
+	}
+	if fmt.Sprint(got) != fmt.Sprint(want) {
+		out = append(out, fmt.Sprintf("a sequence of publishes on one bus was recorded under the types %v, the events' type names are %v", got, want))
+	}
+	return out
+}
+
+// durableCases: the durable-streams store behind a transport that drops the connection
+// after the server applied an append: N publishes must still give N records, none twice.
+func durableCases() (out []string) {
+	for at := 1; at <= 3; at++ {
+		med, err := stores.NewMedium("durable")
+		if err != nil {
+			vrt.MachineryFault("%v", err)
+		}
+		hd, err := med.Open()
+		if err != nil {
+			vrt.MachineryFault("%v", err)
+		}
+		bus := eventbus.New(eventbus.WithStore(hd.Store))
+		for i := 1; i <= 3; i++ {
+			posts := 0
+			med.FailResponse = func(r *http.Request) error {
+				if r.Method == http.MethodPost {
+					posts++
+					if i == at && posts == 1 {
+						return io.ErrUnexpectedEOF
+					}
+				}
+				return nil
+			}
+			eventbus.Publish(bus, EvA{ID: i})
+		}
+		med.FailResponse = nil
+		cnt := map[int]int{}
+		cur := eventbus.OffsetOldest
+		for k := 0; k < 8; k++ {
+			evs, next, err := hd.Store.Read(context.Background(), cur, 0)
+			if err != nil || len(evs) == 0 {
+				break
+			}
+			for _, e := range evs {
+				var a EvA
+				json.Unmarshal(e.Data, &a)
+				cnt[a.ID]++
+			}
+			cur = next
+		}
+		for i := 1; i <= 3; i++ {
+			if cnt[i] != 1 {
+				out = append(out, fmt.Sprintf("durable-streams store, connection dropped after the server applied an append: a publish is recorded %d times", cnt[i]))
+			}
+		}
+		hd.Close()
+	}
+	return out
+}
+
 // ---------------------------------------------------------------- schedules
 
 type cinst struct {
@@ -596,6 +683,13 @@ func run(c *h.Check) {
 	}
 	if c.Worker == 0 {
 		c.Note(fmt.Sprintf("%d configurations, %d values", len(cfgs), len(vals)))
+		c.Count("evaluations", 2)
+		for _, m := range sequenceCases() {
+			c.Violate("sequence", "sequence on one bus: recorded type differs from the event's type name", m, map[string]any{"sequence": true})
+		}
+		for _, m := range durableCases() {
+			c.Violate("durable", m, m, map[string]any{"durable": true})
+		}
 	}
 	bound := 2
 	if c.Thorough() {
@@ -631,10 +725,22 @@ func replay(c *h.Check, rf *h.ReplayFile) []vrt.Violation {
 		}
 	}
 	var ops struct {
-		Cfg   *cfg   `json:"cfg"`
-		Value string `json:"value"`
+		Cfg      *cfg   `json:"cfg"`
+		Value    string `json:"value"`
+		Sequence bool   `json:"sequence"`
+		Durable  bool   `json:"durable"`
 	}
 	json.Unmarshal(rf.Ops, &ops)
+	if ops.Sequence {
+		for _, m := range sequenceCases() {
+			vs = append(vs, vrt.Violation{Kind: "sequence", Sig: rf.Sig, Detail: m})
+		}
+	}
+	if ops.Durable {
+		for _, m := range durableCases() {
+			vs = append(vs, vrt.Violation{Kind: "durable", Sig: m, Detail: m})
+		}
+	}
 	if ops.Cfg != nil {
 		for _, v := range runCfg(*ops.Cfg) {
 			vs = append(vs, vrt.Violation{Kind: "configuration", Sig: stripNum(v) + " [" + ops.Cfg.shape() + "]", Detail: v})
